@@ -866,6 +866,28 @@ func (s *Script) appendOp(o *op, left, right any) (pb *precBuf) {
 	return
 }
 
+// appendRegex appends the pattern between slashes the way the parser reads
+// it: verbatim except that a slash that is not already escaped is escaped.
+func appendRegex(buf []byte, rx *regexp.Regexp) []byte {
+	buf = append(buf, '/')
+	pat := rx.String()
+	for i := 0; i < len(pat); i++ {
+		switch pat[i] {
+		case '\\':
+			buf = append(buf, pat[i])
+			if i+1 < len(pat) {
+				i++
+				buf = append(buf, pat[i])
+			}
+		case '/':
+			buf = append(buf, '\\', '/')
+		default:
+			buf = append(buf, pat[i])
+		}
+	}
+	return append(buf, '/')
+}
+
 func (s *Script) appendValue(buf []byte, v any, prec byte) []byte {
 	switch tv := v.(type) {
 	case nil:
@@ -896,7 +918,7 @@ func (s *Script) appendValue(buf []byte, v any, prec byte) []byte {
 	case Expr:
 		buf = tv.Append(buf)
 	case *regexp.Regexp:
-		buf = AppendString(buf, tv.String(), '/')
+		buf = appendRegex(buf, tv)
 	case *precBuf:
 		if prec < tv.prec {
 			buf = append(buf, '(')
